@@ -259,15 +259,43 @@ func (self *Node) makePrenodesForBinding(bind *syntax.ResolvedBinding,
 	}
 	// Make sure we get fork root prenodes as well as actual input prenodes.
 	allRefs := bind.Exp.FindRefs()
+	// Values collected from a mapped call also depend on whatever
+	// determines how many of them there are.
+	allRefs = appendMergeSourceRefs(allRefs, bind.Exp)
 	if len(allRefs) > 0 {
 		if refs == nil {
 			refs = make(map[Nodable]struct{}, len(allRefs))
 		}
 		for _, ref := range allRefs {
-			refs[self.top.allNodes[ref.Id]] = struct{}{}
+			if n := self.top.allNodes[ref.Id]; n != nil {
+				refs[n] = struct{}{}
+			}
 		}
 	}
 	return refs, fileRefs
+}
+
+func appendMergeSourceRefs(refs []*syntax.RefExp, exp syntax.Exp) []*syntax.RefExp {
+	switch exp := exp.(type) {
+	case *syntax.MergeExp:
+		refs = append(refs, exp.SourceRefs()...)
+		if exp.Value != nil {
+			refs = appendMergeSourceRefs(refs, exp.Value)
+		}
+	case *syntax.SplitExp:
+		refs = appendMergeSourceRefs(refs, exp.Value)
+	case *syntax.DisabledExp:
+		refs = appendMergeSourceRefs(refs, exp.Value)
+	case *syntax.ArrayExp:
+		for _, v := range exp.Value {
+			refs = appendMergeSourceRefs(refs, v)
+		}
+	case *syntax.MapExp:
+		for _, v := range exp.Value {
+			refs = appendMergeSourceRefs(refs, v)
+		}
+	}
+	return refs
 }
 
 func (self *Node) makePrenodes() {
